@@ -640,6 +640,18 @@ fn main() {
             Ok(format!("status {}", code))
         });
     }
+    // C15: a reader that goes away (generate --verbose | head -n 3) ends the run with an error, not with a panic
+    rep.case("closed_stdout_does_not_panic", "generate --verbose --force with the read end of stdout closed", &|| {
+        let p = project(&root, "epipe", Some(conf_plain));
+        let pp = p.join("src-tauri"); let gp = p.join("src/generated");
+        let mut child = Command::new(&cli).arg("tauri-typegen").args(["generate", "--project-path", pp.to_str().unwrap(), "--output-path", gp.to_str().unwrap(), "--validation", "none", "--force", "--verbose"])
+            .current_dir(&p).env("NO_COLOR", "1").stdout(std::process::Stdio::piped()).stderr(std::process::Stdio::piped()).spawn().map_err(|e| e.to_string())?;
+        drop(child.stdout.take());
+        let out = child.wait_with_output().map_err(|e| e.to_string())?;
+        let err = String::from_utf8_lossy(&out.stderr).to_string();
+        if err.contains("panicked at") || out.status.code() == Some(101) { return Err(format!("status {:?}: {}", out.status.code(), err.lines().find(|l| l.contains("panicked")).unwrap_or("").chars().take(200).collect::<String>())); }
+        Ok(format!("status {:?}", out.status.code()))
+    });
     let _ = fs::remove_dir_all(&root);
     rep.finish()
 }
